@@ -10,7 +10,7 @@ INV = ["IdBijective", "SizeIsCard", "UnionIsOr", "InterIsAnd", "DiffIsAndNot", "
 
 
 def run(chk, args):
-    chk.rule = ("one recorded operation result per item: every coalition (object and id-array forms) for each n, all ordered pairs for small n (sampled above), "
+    chk.rule = ("one recorded operation result per item: every coalition (object and id-array forms) for each n up to 8 (quick) / 10 (thorough) and a sample containing every singleton, co-singleton and the top players' coalitions up to n = 10 / 12, per-coalition, pair and player operations (without sub-/super-coalition lists) for n = 16, 17, 24, 30, all ordered pairs for small n (sampled above), "
                 "every (coalition, player), all integer games with values in {-1,0,1} on 2 and 3 players and random games on 4, 5 for the predicates, "
                 "crafted near-tolerance games; all items are distinct by construction")
     chk.assumptions = ["finite enumeration with the TLA+ finite-set semantics as oracle (transcription of pure functions); exhaustive for the stated n only"]
@@ -19,7 +19,8 @@ def run(chk, args):
         cfg = chk.wd / f"MC_Coal_n{n}.cfg"
         vlib.write_cfg(cfg, constants={"N": n}, invariants=INV)
         chk.model_check("MC_Coal", cfg.name, cfg_path=cfg)
-    summ = vlib.run_driver("drv_coalitions", ["--out", str(chk.wd / "co"), "--seed", str(chk.seed), "--ns", "1,2,3,4,5,6,7,8" if q else "1,2,3,4,5,6,7,8,9,10",
+    summ = vlib.run_driver("drv_coalitions", ["--out", str(chk.wd / "co"), "--seed", str(chk.seed), "--ns", "1,2,3,4,5,6,7,8,9,10" if q else "1,2,3,4,5,6,7,8,9,10,11,12",
+                                              "--coal-sample-above", "8" if q else "10", "--big-ns", "16,17,24,30" if q else "13,15,16,17,20,24,25,30",
                                               "--all-pairs-max-n", "4" if q else "6", "--pair-samples", "300" if q else "3000",
                                               "--random-preds", "40" if q else "400"], chk.wd, timeout=3000)
     for f in summ["files"]:
@@ -29,4 +30,10 @@ def run(chk, args):
         chk.distinct_nontrivial += f["traces"]
         if len(chk.samples) < 4:
             chk.samples.append({"n": f["n"], "kinds": f["kinds"], "item": f["sample"]})
+    for f in summ["big_files"]:
+        validate_file(chk, Path(f["path"]), f["n"], {"C18"}, "coalitions-big", spec="Trace_CoalBig")
+        chk.traces += f["traces"]
+        chk.evaluations += f["events"]
+        chk.distinct_nontrivial += f["traces"]
+    chk.samples.append({"n": summ["big_files"][-1]["n"], "kinds": summ["big_files"][-1]["kinds"], "item": summ["big_files"][-1]["sample"]})
     chk.exhaustive = True
